@@ -206,7 +206,20 @@ pub fn run(ctx: &Ctx) -> Report {
     }
     // every unsupported string-valued test with every word of the dictionary taken from the sources
     // under test (an argument that is special to the code must not turn the refusal off)
-    for w in crate::dict::words().into_iter().chain(crate::dict::paths()) {
+    // ... and with long arguments whose multi-byte characters straddle every byte offset up to 130
+    // (messages that shorten the argument), numerals of other scripts, and plain numbers
+    let mut special_words: Vec<String> = vec![];
+    for mb in ["é", "日", "😀"] {
+        for pad in 0..=130usize {
+            if pad % 3 == 0 || pad < 70 {
+                special_words.push(format!("{}{}", "a".repeat(pad), mb.repeat(40)));
+            }
+        }
+    }
+    for w in ["42", "0", "٣٤", "²", "½", "Ⅷ", "１２", "७", "1000", "-1", "root", "rööt"] {
+        special_words.push(w.to_string());
+    }
+    for w in crate::dict::words().into_iter().chain(crate::dict::paths()).chain(special_words) {
         for t in [
             UTest::AccessNewer(w.clone()),
             UTest::ChangeNewer(w.clone()),
